@@ -129,20 +129,23 @@ Theorem C09_mpmc_overlay_loses_nothing :
 Proof. exact reach_moreach. Qed.
 Print Assumptions C09_mpmc_overlay_loses_nothing.
 
+(* the delivery of a cancellation to a blocked mpmc receiver is the model's give-up action [Fire r true] (any blocked
+   waiter, timed or not, granted or not) *)
 Theorem C09_mpmc_fire_as_cancel_needs_bit :
-  forall c os r os', MOReach c os -> mostep c os (OAct (Fire r) true) = Some os' ->
-  cbit os r = true /\ In r (clog os) /\
-  rp (Rv (base os) r) = WB /\ rtimed (Rv (base os) r) = true /\ rgr (Rv (base os) r) = false.
+  forall c os r os', MOReach c os -> mostep c os (OAct (Fire r true) true) = Some os' ->
+  cbit os r = true /\ In r (clog os) /\ rp (Rv (base os) r) = WB.
 Proof. exact fire_as_cancel_needs_bit. Qed.
 Print Assumptions C09_mpmc_fire_as_cancel_needs_bit.
 
 Theorem C09_mpmc_cancelled_receiver_not_blocked :
-  forall c os r, OQuiescent c os -> cbit os r = true -> rtimed (Rv (base os) r) = true -> rp (Rv (base os) r) <> WB.
+  forall c os r, OQuiescent c os -> cbit os r = true -> rp (Rv (base os) r) <> WB.
 Proof. exact cancelled_receiver_not_blocked. Qed.
 Print Assumptions C09_mpmc_cancelled_receiver_not_blocked.
 
+(* a waiter that gives up before a permit was handed to it takes nothing; one that had been handed the permit posts it
+   back (C06_mpmc_giveup_passes_the_permit_on) *)
 Theorem C09_mpmc_giving_up_takes_nothing :
-  forall c s r s', step true true c s (Fire r) = Some s' ->
+  forall c s r c0 s', step true true c s (Fire r c0) = Some s' -> rgr (Rv s r) = false ->
   q s' = q s /\ sv s' = sv s /\ wq s' = rm r (wq s) /\ hold s' = hold s /\ rlog s' = rlog s /\ sent s' = sent s /\
   txp s' = txp s /\ rxp s' = rxp s /\ rp (Rv s' r) = YIdle.
 Proof. exact giving_up_takes_nothing. Qed.
@@ -191,7 +194,7 @@ Example C09_ex_mpmc_cancelled_receiver_with_pending_message :
                     (OV.oinit _ MayV.Sync.ChanMpmcModel.init) MayV.Sync.CancelChanMpmc.osch = Some os /\
     MayV.Sync.CancelChanMpmc.MOReach true os /\
     MayV.Sync.ChanMpmcModel.rp (MayV.Sync.ChanMpmcModel.Rv (OV.base os) 0) = MayV.Sync.ChanMpmcModel.YIdle /\
-    MayV.Sync.ChanMpmcModel.rres (MayV.Sync.ChanMpmcModel.Rv (OV.base os) 0) = MayV.Sync.ChanMpmcModel.RTimeout /\
+    MayV.Sync.ChanMpmcModel.rres (MayV.Sync.ChanMpmcModel.Rv (OV.base os) 0) = MayV.Sync.ChanMpmcModel.RCancel /\
     MayV.Sync.ChanMpmcModel.q (OV.base os) = [(0, 0)] /\ MayV.Sync.ChanMpmcModel.sv (OV.base os) = 1 /\
     MayV.Sync.ChanMpmcModel.wq (OV.base os) = [] /\
     exists os', OV.orun _ _ (MayV.Sync.ChanMpmcModel.step true true true) MayV.Sync.CancelChanMpmc.mp_hits MayV.Sync.CancelChanMpmc.all_co os
